@@ -907,9 +907,10 @@ inline ostream_t &operator<<(ostream_t &o, int) { return o; }
 inline ostream_t &operator<<(ostream_t &o, bool) { return o; }
 inline ostream_t &operator<<(ostream_t &o, long long) { return o; }
 inline ostream_t &operator<<(ostream_t &o, endl_t) { return o; }
-extern ostream_t cerr;
-extern ostream_t cout;
+inline ostream_t cerr;
+inline ostream_t cout;
 static const endl_t endl = endl_t();
+inline ostream_t &flush(ostream_t &o) { return o; }
 }
 
 // ---------------------------------------------------------------- QList (fixed capacity, raw-pointer iterators)
